@@ -73,6 +73,13 @@ func IsolateEnv(dir string) {
 // remote under its own name; with peers, every replica also gets every other replica as a remote
 // named after it.
 func Create(dir string, replicas, remotes []string, peers bool) (*World, error) {
+	return CreateWithScheme(dir, replicas, remotes, peers, Scheme+"://")
+}
+
+// CreateWithScheme is Create with the URL prefix of the remotes: Scheme+"://" selects the
+// in-process transport, "" gives plain paths, for which go-git spawns the stock git binary
+// (upload-pack / receive-pack): the "disk flavour" used as a cross-check of the transport.
+func CreateWithScheme(dir string, replicas, remotes []string, peers bool, prefix string) (*World, error) {
 	IsolateEnv(dir)
 	w := &World{Dir: dir, Replicas: replicas, Remotes: remotes, Repos: map[string]*repository.GoGitRepo{}, Users: map[string]entity.Id{}}
 	for _, r := range remotes {
@@ -89,14 +96,14 @@ func Create(dir string, replicas, remotes []string, peers bool) (*World, error) 
 		}
 		w.Repos[a] = repo
 		for _, r := range remotes {
-			if err := repo.AddRemote(r, Scheme+"://"+filepath.Join(dir, r)); err != nil {
+			if err := repo.AddRemote(r, prefix+filepath.Join(dir, r)); err != nil {
 				return nil, err
 			}
 		}
 		if peers {
 			for _, b := range replicas {
 				if b != a {
-					if err := repo.AddRemote(b, Scheme+"://"+filepath.Join(dir, b, ".git")); err != nil {
+					if err := repo.AddRemote(b, prefix+filepath.Join(dir, b, ".git")); err != nil {
 						return nil, err
 					}
 				}
